@@ -1,0 +1,31 @@
+//go:build verif
+// +build verif
+
+package caching
+
+import (
+	"time"
+
+	"github.com/richiefi/rrrouter/verifhook"
+)
+
+func verifPoint(name string, k Key)     { verifhook.Point(name, k.FsName()) }
+func verifPointS(name string, s string) { verifhook.Point(name, s) }
+
+// verifNow: the injected wall clock if one is installed, else the value the code computed.
+func verifNow(t int64) int64 {
+	if c, ok := verifhook.Clock(); ok {
+		return c
+	}
+	return t
+}
+
+// verifSleep lets the harness shorten the size limiter's purge period.
+var VerifLimiterPeriod time.Duration
+
+func verifSleep(d time.Duration) time.Duration {
+	if VerifLimiterPeriod > 0 {
+		return VerifLimiterPeriod
+	}
+	return d
+}
